@@ -72,6 +72,39 @@ def uci_garbage_session(args):
     return dict(viol=v, n=len(lines), stderr=eng.stderr_text(), tail=lines[-5:], distinct=set(lines))
 
 
+PROMO_FENS = ["8/2P3k1/8/8/8/8/2p3K1/8 w - - 0 1", "8/2P3k1/8/8/8/8/2p3K1/8 b - - 0 1", "1n1r2k1/2P5/8/8/8/8/2p5/1N1R2K1 w - - 0 1", "1n1r2k1/2P5/8/8/8/8/2p5/1N1R2K1 b - - 0 1",
+              "r3k2r/6P1/8/8/8/8/6p1/R3K2R w KQkq - 0 1", "r3k2r/6P1/8/8/8/8/6p1/R3K2R b KQkq - 0 1", "4k3/8/8/3pP3/8/8/8/4K3 w - d6 0 2", "4k3/8/8/8/3Pp3/8/8/4K3 b - d3 0 2"]
+
+
+def engine_move_text(variant):
+    """The engine's own move-to-text code (bestmove / ponder / pv / currmove lines) is a separate copy from TextIO: every legal move of
+    positions rich in promotions, castling and e.p. is forced with searchmoves and must come back as exactly the same UCI text."""
+    v, n, kinds = [], 0, {}
+    ref = uci.RefCli.get()
+    eng = uci.Engine(variant, "material_1")
+    eng.send("uci"); eng.isready()
+    for fen in PROMO_FENS:
+        moves, _ = ref.legal(fen)
+        for m in moves:
+            if not (len(m) == 5 or m in ("e1g1", "e1c1", "e8g8", "e8c8") or fen.split()[3] != "-"):
+                continue
+            eng.send("position fen " + fen)
+            ls, best = eng.go("go depth 2 searchmoves " + m, timeout=60)
+            n += 1
+            key = ("promotion to %s by %s" % (m[4], "white" if fen.split()[1] == "w" else "black")) if len(m) == 5 else "other"
+            kinds[key] = kinds.get(key, 0) + 1
+            got = (best or "").split()
+            if len(got) < 2 or got[1] != m:
+                v.append(("engine-move-text-differs", "position fen %s ; go depth 2 searchmoves %s -> %s" % (fen, m, best)))
+            for l in ls:
+                k, mm = uci.classify(l)
+                if k == "pv" and mm.group("pv").split()[0] != m:
+                    v.append(("engine-move-text-differs", "position fen %s ; go depth 2 searchmoves %s -> pv %s" % (fen, m, mm.group("pv")[:40])))
+                    break
+    eng.close()
+    return v, n, kinds
+
+
 def run(c):
     quick = c.tier == "quick"
     B.build([("rel", "h_rules"), ("asan", "h_rules"), ("rel", "h_pgn"), ("asan", "h_pgn"), ("asan", "texel")])
@@ -126,6 +159,13 @@ def run(c):
                 c.violation("uci-garbage-lines", "sanitizer", core.report_key(rep), detail="last lines: %r\n%s" % (r["tail"], rep["raw"]))
             ulines += r["n"]
             udist |= r["distinct"]
+    ev, en, ekinds = engine_move_text("asan")
+    for kind, wit in ev:
+        c.violation("engine-move-text", kind, wit)
+    if len([k for k in ekinds if k.startswith("promotion")]) < 8:
+        raise core.HarnessError("engine move text: not all eight promotion kinds exercised: %s" % ekinds)
+    c.extra["engine_output_moves_checked"] = en
+    c.extra["engine_output_move_kinds"] = ekinds
     fuzz = None
     if not quick:
         os.environ["VERIF_BUILD_FUZZ"] = "1"
